@@ -266,6 +266,7 @@ def run(ctx):
 _P = 'billiard/pool.py'
 _C = 'billiard/common.py'
 MUTANTS = [
+    ('refused-restart-swallowed', 'billiard/pool.py', "            pool.close()\n            pool.join()\n            raise\n        debug('worker handler exiting')\n", "            pool.close()\n            pool.join()\n        debug('worker handler exiting')\n", 'R11.6'),
     ('limiter-given-the-pass-start-time', 'billiard/pool.py', "                    self.restart_state.step()\n", "                    self.restart_state.step(getattr(self, '_pass_started', None))\n", 'R11.5'),
     ('burst-limiter-rebuilt-every-tick', _P, "            pool.restart_state = restart_state(10 * pool._processes, 1)\n            for _ in range(10):\n                if self._state == RUN and pool._state == RUN:\n",
      "            for _ in range(10):\n                if self._state == RUN and pool._state == RUN:\n                    pool.restart_state = restart_state(10 * pool._processes, 1)\n", 'R11.4'),
